@@ -494,9 +494,40 @@ where
     // LossyFrom<fixed> for the float type: the same correctly rounded value
     c.wr.raw(",\"lossy\":");
     c.wr.out1(&pf_val(|| T::lossy_from(a)));
+    // From<fixed> for the float type, where the crate provides it (small types: the conversion is exact)
+    let fr: Option<Out> = if T::BITS == 32 { a.f32_from().map(|v| Out::V(Num::u(v.to_bits() as u128))) } else { a.f64_from().map(|v| Out::V(Num::u(v.to_bits() as u128))) };
+    if let Some(o) = fr {
+        c.wr.raw(",\"from\":");
+        c.wr.out1(&o);
+    }
     c.wr.raw("}");
     c.wr.end();
 }
+/// LossyFrom<integer> for f32 / f64: the correctly rounded value of the integer
+fn ev_i2f<I: PInt, T: PFloat + LossyFrom<I>>(c: &mut Ctx) {
+    let l = I::lay();
+    let mut vals = gen::lattice(l, false);
+    let mut rng = Rng::new(c.seed ^ (l.w as u64) << 8 ^ l.s as u64 ^ T::BITS as u64);
+    // integers with 24 / 53 significant bits +- tie tails
+    for _ in 0..40 { vals.push(rng.pattern(l.w)); }
+    for &p in &[24u32, 25, 53, 54] { if p < l.w { for k in 0..4u128 { vals.push(((1u128 << p) + (1u128 << (p - 1)) * (k % 2) + k) & mask(l.w)); vals.push((mask(p) << (l.w - p - (!l.s as u32).min(l.w - p))) & mask(l.w)); } } }
+    for v in vals {
+        let n = I::from_raw(v);
+        head(c, "i2f");
+        c.wr.raw(",\"ft\":");
+        c.wr.raw(T::FT);
+        c.wr.raw(",\"A\":");
+        c.wr.lay(l);
+        c.wr.raw(",\"a\":");
+        c.wr.num(n.val());
+        c.wr.raw(",\"lossy\":");
+        c.wr.out1(&pf_val(|| T::lossy_from(n)));
+        c.wr.raw("}");
+        c.wr.end();
+    }
+}
+macro_rules! i2f_all { ($c:expr; $($i:ident)*) => { $( ev_i2f::<$i, f32>($c); ev_i2f::<$i, f64>($c); )* } }
+fn run_i2f(c: &mut Ctx) { i2f_all!(c; i8 i16 i32 i64 i128 isize u8 u16 u32 u64 u128 usize); }
 
 fn floats<A, T>(c: &mut Ctx)
 where
